@@ -42,21 +42,8 @@ namespace glm
 		vec<L, bool, Q> Result(false);
 		for(length_t i = 0; i < L; ++i)
 		{
-			detail::float_t<T> const a(x[i]);
-			detail::float_t<T> const b(y[i]);
-
-			// Different signs means they do not match.
-			if(a.negative() != b.negative())
-			{
-				// Check for equality to make sure +0==-0
-				Result[i] = a.mantissa() == b.mantissa() && a.exponent() == b.exponent();
-			}
-			else
-			{
-				// Find the difference in ULPs.
-				typename detail::float_t<T>::int_type const DiffULPs = abs(a.i - b.i);
-				Result[i] = DiffULPs <= MaxULPs[i];
-			}
+			// +0 and -0 are the same value; values of opposite sign are |x| + |y| representable values apart
+			Result[i] = MaxULPs[i] >= 0 && detail::float_distance_ulps(x[i], y[i]) <= static_cast<typename detail::make_unsigned<typename detail::float_t<T>::int_type>::type>(MaxULPs[i]);
 		}
 		return Result;
 	}
